@@ -1,5 +1,6 @@
 import CnlModel.Exp2
 import CnlSpec.Exp2
+import CnlProofs.CIntLemmas
 import Mathlib.Tactic.Ring
 import Mathlib.Tactic.Linarith
 import Mathlib.Tactic.Positivity
@@ -10,7 +11,12 @@ import Mathlib.Tactic.Positivity
 2. the generated coefficient table equals the table derived inside Lean from the header's decimal literals;
 3. the floor oracle of `CnlSpec.Exp2` is sound (`floorPow2?_sound`): certified enclosure chain → interval product → floor;
 4. table infrastructure: a Boolean sweep over every representation of a format implies the ∀-statement about
-   the true `⌊2^x⌋` (`bound_of_table`).
+   the true `⌊2^x⌋` (`bound_of_table`);
+5. the repaired tests of `exp2`: `notAbove` (`fp::not_above_exponent`) is `floored ≤ Exponent` by value for every standard
+   `Rep` (`notAbove_iff`), never taken for an unsigned `Rep` with a negative exponent (`notAbove_unsigned_neg`); the as-found
+   built-in comparison is not (`cLe_orig_not_by_value`); negative inputs of positive-exponent formats return 0, which is the true
+   floor (`exp2_neg_posExp`, `isRef_neg_posExp`);
+6. integral inputs: the floor of `2^(j·2^n/2^n)` is `2^j` (`isFloor_pow`), `2^j ≤ max → j < digits`, `E + 32 ≤ 2^E` for `E ≥ 6`.
 -/
 open Cnl Cnl.Exp2 Cnl.Spec.Exp2
 
@@ -328,5 +334,73 @@ theorem bound_of_table {f : Fmt} {B : Nat} (h : ∀ rep, f.rep.InRange rep → b
     cases hm : exp2 f rep with
     | ok v => rw [hm] at hb; exact ⟨v, rfl, by simpa using hb⟩
     | _ => rw [hm] at hb; simp at hb
+
+/-! ## 5. the repaired tests -/
+
+/-- unsigned `Rep`, negative `Exponent`: the early return of `fp::exp2` is never taken (every `floored` is ≥ 0 > `Exponent`) -/
+theorem notAbove_unsigned_neg (f : Fmt) (fl : Int) (hs : f.signed = false) (he : f.exp < 0) : notAbove f fl = false := by
+  simp [notAbove, hs, he]
+
+/-- `fp::not_above_exponent<Exponent>(floored)` is `floored ≤ Exponent` BY VALUE for every standard `Rep` (signed or unsigned,
+8 … 64 bits), every `floored` of that type and every `int` exponent -/
+theorem notAbove_iff (f : Fmt) (fl : Int) (hb : f.bits = 8 ∨ f.bits = 16 ∨ f.bits = 32 ∨ f.bits = 64)
+    (hfl : f.rep.InRange fl) (he : i32.InRange f.exp) : notAbove f fl = true ↔ fl ≤ f.exp := by
+  obtain ⟨b, s, e⟩ := f
+  simp only at hb
+  unfold notAbove
+  rw [cLeF_eq]
+  rcases hb with rfl | rfl | rfl | rfl <;> cases s <;>
+    simp [Fmt.rep, IntTy.InRange, IntTy.lowest, IntTy.max, i32] at hfl he <;>
+    simp [cCmp, usualArith, promote, i32, Fmt.rep, IntTy.wrap] <;> omega
+
+/-- AS FOUND: the built-in `floored <= Exponent` is not by value: `3u <= -16` holds for a `uint32_t` (and `uint64_t`) `floored` -/
+theorem cLe_orig_not_by_value : cLeF (u32, 3) (i32, -16) = true ∧ cLeF (u64, 3) (i32, -16) = true ∧ ¬ ((3 : Int) ≤ -16) := by
+  decide
+
+/-- positive exponent, negative input: the repaired `exp2` returns zero for EVERY width and coefficient table, without
+converting `floor(x)` to `Rep` -/
+theorem exp2With_neg_posExp (cs : List Nat) (f : Fmt) (rep : Int) (he : 0 < f.exp) (hr : rep < 0) : exp2With cs f rep = .ok 0 := by
+  simp [exp2With, he, hr]
+
+theorem exp2_neg_posExp (f : Fmt) (rep : Int) (he : 0 < f.exp) (hr : rep < 0) : exp2 f rep = .ok 0 :=
+  exp2With_neg_posExp _ f rep he hr
+
+/-- … and zero is the true `⌊2^x · 2^(−E)⌋` there (`x = rep·2^E < 0 < E`) -/
+theorem isRef_neg_posExp (E rep : Int) (he : 0 < E) (hr : rep < 0) : IsRef E rep 0 := by
+  have hp : (0 : Int) < 2 ^ E.toNat := two_pow_pos _
+  have hk : (expArg E rep).2 < 0 := by
+    have hE : ¬ E < 0 := by omega
+    simp only [expArg, hE, if_false]
+    have : rep * 2 ^ E.toNat < 0 := Int.mul_neg_of_neg_of_pos hr hp
+    omega
+  unfold IsRef IsFloorPow2
+  simp [hk]
+
+/-! ## 6. integral inputs -/
+
+/-- the floor of `2^(j·2^n / 2^n)` is `2^j` -/
+theorem isFloor_pow (n j r : Nat) (h : IsFloorPow2 n ((j * 2^n : Nat) : Int) r) : r = 2^j := by
+  apply isFloorPow2_unique h
+  unfold IsFloorPow2
+  have hk : ¬ (((j * 2^n : Nat) : Int) < 0) := by omega
+  simp only [hk, if_false, Int.toNat_natCast]
+  have hN : 2^n ≠ 0 := by positivity
+  constructor
+  · rw [← pow_mul]
+  · rw [pow_mul]; exact Nat.pow_lt_pow_left (Nat.lt_succ_self _) hN
+
+/-- a power of two that fits a type has fewer than `digits` doublings -/
+theorem lt_digits_of_le_max (t : IntTy) (j : Nat) (h : ((2^j : Nat) : Int) ≤ t.max) : j < t.digits := by
+  rw [IntTy.max_eq] at h
+  by_contra hc
+  have : (2:Nat)^t.digits ≤ 2^j := Nat.pow_le_pow_right (by decide) (by omega)
+  have h2 : ((2^t.digits : Nat) : Int) ≤ ((2^j : Nat) : Int) := by exact_mod_cast this
+  push_cast at h h2
+  omega
+
+theorem two_pow_ge (E : Nat) (h : 6 ≤ E) : E + 32 ≤ 2^E := by
+  induction E, h using Nat.le_induction with
+  | base => decide
+  | succ n hn ih => rw [Nat.pow_succ]; omega
 
 end Cnl.Exp2Proofs
